@@ -44,6 +44,34 @@ def TapTree.combine {α : Type} (left right : TapTree α) : Option (TapTree α) 
 def TapTree.translate {α β : Type} (f : α → Option β) (t : TapTree α) : Option (TapTree β) :=
   t.mapM (fun p => (f p.2).map (fun s => (p.1, s)))
 
+/-- the two ways `translate_pk` fails: the translator's own error (`TranslateErr::TranslatorErr`)
+or the translated object being refused by the context (`TranslateErr::OuterError`, e.g. an
+uncompressed key in Tapscript) -/
+inductive TrErr where
+  | translator
+  | outer
+  deriving Repr, DecidableEq
+
+/-- `Tr::translate_pk`: first the tree (`TapTree::translate_pk`: the leaves left to right, each
+through `Miniscript::translate_pk`, which re-checks the translated leaf: `f` returns the
+translated leaf or the first error met inside it), then the internal key (`fk`: the translator's
+verdict followed by `Tr::new`'s `Tap::check_pk`).  The first error wins; nothing is returned
+besides it. -/
+def trTranslate {α β κ κ' : Type} (f : α → Except TrErr β) (fk : κ → Except TrErr κ')
+    (ik : κ) (tree : Option (TapTree α)) : Except TrErr (κ' × Option (TapTree β)) :=
+  match tree with
+  | some t =>
+    match t.mapM (fun p => (f p.2).map (fun s => (p.1, s))) with
+    | .error e => .error e
+    | .ok t' =>
+      match fk ik with
+      | .error e => .error e
+      | .ok k => .ok (k, some t')
+  | none =>
+    match fk ik with
+    | .error e => .error e
+    | .ok k => .ok (k, none)
+
 /-- in `fmt_helper`: `if let Some(c) = child_counts.last_mut() { *c += 1 }` followed by
 `while let Some(2) = child_counts.last() { write "}"; pop; if let Some(c) = … { *c += 1 } }`
 (head of the list = last element of the `Vec<u8>`); returns what was written and the stack -/
